@@ -8,7 +8,10 @@ From SPV Require Import Base.Str Model.DocScan Model.DocScanSpec Gen.FactsDoc Pr
    returns exactly the documentation written for the queried field - nothing from another field, nothing
    invented - and None exactly when the class does not declare the field.
    wf_layout is a boolean predicate: marker texts without '#', ':', '=', quote characters, newlines and without
-   white space at their ends; comment and inline markers non-empty; identifiers as field names. *)
+   white space at their ends; comment and inline markers non-empty; identifiers as field names; annotation text
+   without '#', ':', '='; DEFAULT-VALUE text arbitrary as long as every '#' in it is inside a closed string
+   literal (single, double or triple quotes, escaped quotes and backslashes: the predicate `closed`, computed
+   with the regenerated loop body of _split_at_comment). *)
 Theorem C19_scan_render : forall L f,
   wf_layout L = true -> scan_lines_gen (render L) f = option_map triple (docs L f).
 Proof. exact scan_render. Qed.
@@ -65,17 +68,20 @@ Definition demo : layout :=
   mklayout ["@dataclass(frozen=True)"; "class Opt(Base):  # noqa"; "    """""""; """"""""] 4
     [ mkfld "lr" "float" (Some "1e-3") 0 ["learning rate"; "second line"] (Some "inline lr") None;
       mkfld "lr_decay" "float" None 1 [] None (Some (DMulti Sq "" ["decay of lr"; ""; "more"] ""));
-      mkfld "name" "str" (Some """run 1""") 2 ["above name"] None (Some (DOne Dq "doc of name")) ] 1.
+      mkfld "name" "str" (Some """run #1""") 2 ["above name"] (Some "which run") (Some (DOne Dq "doc of name"));
+      mkfld "pat" "str" (Some "'it\'s #' + '''a#b'''") 0 [] None None ] 1.
 
 Example C19_nonvacuous :
   wf_layout demo = true
   /\ render demo = ["@dataclass(frozen=True)"; "class Opt(Base):  # noqa"; "    """""""; """""""";
                     "    # learning rate"; "    # second line"; "    lr: float = 1e-3  # inline lr";
                     ""; "    lr_decay: float"; "    '''"; "    decay of lr"; "    "; "    more"; "    '''";
-                    ""; ""; "    # above name"; "    name: str = ""run 1"""; "    """"""doc of name"""""""; ""]
+                    ""; ""; "    # above name"; "    name: str = ""run #1""  # which run"; "    """"""doc of name""""""";
+                    "    pat: str = 'it\'s #' + '''a#b'''"; ""]
   /\ scan_lines_gen (render demo) "lr" = Some (join_text ["learning rate"; "second line"], "inline lr", "")
   /\ scan_lines_gen (render demo) "lr_decay" = Some ("", "", join_text [""; "decay of lr"; ""; "more"; ""])
-  /\ scan_lines_gen (render demo) "name" = Some ("above name", "", "doc of name")
+  /\ scan_lines_gen (render demo) "name" = Some ("above name", "which run", "doc of name")
+  /\ scan_lines_gen (render demo) "pat" = Some ("", "", "")
   /\ scan_lines_gen (render demo) "l" = None
   (* the former counterexamples, now positive instances: B(A) documents inherited x only in its class docstring *)
   /\ p_cls (result_of (acc_pure_gen (map scan_of [(None, "entry in B"); (Some (mkfdoc "" "" ""), "entry in A")]) None))
